@@ -154,7 +154,7 @@ class RandomForestClassifier(skRandomForestClassifier, DiffprivlibMixin):  # pyl
         self.max_depth = max_depth
         self.shuffle = shuffle
         self.accountant = BudgetAccountant.load_default(accountant)
-        self.estimator = DecisionTreeClassifier()
+        self.estimator = DecisionTreeClassifier(accountant=BudgetAccountant())  # the forest does the accounting
         self.estimator_params = ("max_depth", "epsilon", "bounds", "classes")
 
         self._warn_unused_args(unused_args)
